@@ -15,6 +15,13 @@ Theorem C10_codec_roundtrip_fuel :
     decode e fuel s (bs ++ rest) = Some (v, rest).
 Proof. exact codec_roundtrip_fuel. Qed.
 
+(* converse: the only byte string that decodes to v (leaving rest) is the encoding of v followed by rest *)
+Theorem C10_codec_canonical :
+  forall e, cwf_envb e = true ->
+  forall fuel s bs v rest, cwf_schemab s = true -> byte_list bs -> decode e fuel s bs = Some (v, rest) ->
+    exists a, encode e v s = Some a /\ bs = a ++ rest.
+Proof. exact decode_encode. Qed.
+
 (* Layer 2 — the tables translated from the source on this run: what every `serialize` writes (with the
    field each item is taken from) is what the matching `deserialize…` reads (with the field it ends up in). *)
 Theorem C10_schemas_agree :
@@ -41,6 +48,12 @@ Theorem C10_file_roundtrip :
   forall v file trailing fuel, to_bytes_model v = Some file -> (vdepth v <= fuel)%nat ->
     from_bytes_model fuel (file ++ trailing) = Some (v, trailing).
 Proof. exact scanner_file_roundtrip. Qed.
+
+(* saving a loaded scanner reproduces the file it was loaded from (byte identity), up to the ignored tail *)
+Theorem C10_file_canonical :
+  forall fuel file v rest, byte_list file -> from_bytes_model fuel file = Some (v, rest) ->
+    exists body, to_bytes_model v = Some body /\ file = body ++ rest.
+Proof. exact scanner_file_canonical. Qed.
 
 (* Layer 3 — objects that are rebuilt instead of stored get the constructor arguments they were built with *)
 Theorem C10_rebuild_params_agree : list_eqb site_eqb build_sites rebuild_sites = true.
@@ -69,11 +82,13 @@ Proof. vm_compute. reflexivity. Qed.
 
 Print Assumptions C10_codec_roundtrip.
 Print Assumptions C10_codec_roundtrip_fuel.
+Print Assumptions C10_codec_canonical.
 Print Assumptions C10_schemas_agree.
 Print Assumptions C10_schemas_wf.
 Print Assumptions C10_unwritten_fields_are_the_rebuilt_ones.
 Print Assumptions C10_wire_roundtrip.
 Print Assumptions C10_file_roundtrip.
+Print Assumptions C10_file_canonical.
 Print Assumptions C10_rebuild_params_agree.
 Print Assumptions C10_rebuild_sites_equal.
 Print Assumptions C10_dfa_overwritten_modifiers_unused.
